@@ -31,6 +31,7 @@ type rewardCtx struct {
 	ticker                      common.Ticker
 	stats                       *api.EpochStats
 	delegations                 map[string]*types.PillarDelegationDetail
+	balance                     *big.Int
 }
 
 func (r *rewardCtx) Storage() db.DB             { return r.storage }
@@ -38,6 +39,9 @@ func (r *rewardCtx) EpochTicker() common.Ticker { return r.ticker }
 func (r *rewardCtx) Address() *types.Address    { return &types.PillarContract }
 func (r *rewardCtx) EpochStats(epoch uint64) (*api.EpochStats, error) {
 	return r.stats, nil
+}
+func (r *rewardCtx) GetBalance(ts types.ZenonTokenStandard) (*big.Int, error) {
+	return new(big.Int).Set(r.balance), nil
 }
 func (r *rewardCtx) GetPillarDelegationsByEpoch(epoch uint64) (map[string]*types.PillarDelegationDetail, error) {
 	return r.delegations, nil
@@ -187,6 +191,7 @@ func init() {
 			stakeEpochCase(c)
 			sentinelEpochCase(c)
 			pillarDetailCase(c)
+			liquidityEpochCase(c)
 		}
 	})
 }
@@ -570,6 +575,142 @@ func pillarDetailCase(c *Ctx) {
 		if all.Cmp(bound) > 0 {
 			c.Fail("pillar contract credits %s ZNN for epoch %d, more than the emission for %d expected momentums %s", all, epoch, e, bound)
 		}
+	}
+}
+
+// computeLiquidityStakeRewardsForEpoch: token tuples with percentages, weighted stakes per token, optional additional
+// reward taken from the contract balance.
+// line: liq-epoch <epoch> <start> <end> <addZnn> <addQsr> <nTok> {<znnPct> <qsrPct> <nStakes> {start revoke weighted}*}*
+//       | {znn qsr}* per stake ; <minted znn> <minted qsr>        (or `err` = ErrInvalidRewards)
+func liquidityEpochCase(c *Ctx) {
+	epoch := uint64(c.R.Intn(400))
+	start, end := randWindow(c)
+	ctx := newRewardCtx(epoch, start, end)
+	ctx.balance = new(big.Int).Lsh(big.NewInt(1), 100)
+	addZ, addQ := big.NewInt(0), big.NewInt(0)
+	if c.R.Intn(3) == 0 {
+		addZ = big.NewInt(c.R.Int63n(1 << 40))
+		addQ = big.NewInt(c.R.Int63n(1 << 40))
+	}
+	nTok := c.R.Intn(5)
+	info := &definition.LiquidityInfo{Administrator: idxAddress(6, 0), ZnnReward: addZ, QsrReward: addQ}
+	left := [2]uint32{10000, 10000}
+	args := []string{}
+	nStakes := 0
+	type stakeRef struct{ addr types.Address }
+	refs := []stakeRef{}
+	valid := true
+	for t := 0; t < nTok; t++ {
+		var pct [2]uint32
+		for k := 0; k < 2; k++ {
+			switch {
+			case t == nTok-1 && c.R.Intn(2) == 0:
+				pct[k] = left[k] // percentages sum to exactly 10000
+			case c.R.Intn(15) == 0:
+				pct[k] = left[k] + uint32(1+c.R.Intn(5000)) // invalid configuration: more than 100% in total
+				valid = false
+			default:
+				pct[k] = uint32(c.R.Intn(int(left[k]) + 1))
+			}
+			if pct[k] <= left[k] {
+				left[k] -= pct[k]
+			} else {
+				left[k] = 0
+			}
+		}
+		var zts types.ZenonTokenStandard
+		zts[0] = byte(t + 1)
+		info.TokenTuples = append(info.TokenTuples, definition.TokenTuple{TokenStandard: zts.String(), ZnnPercentage: pct[0], QsrPercentage: pct[1], MinAmount: big.NewInt(1)})
+		ns := c.R.Intn(5)
+		a := []string{fmt.Sprint(pct[0]), fmt.Sprint(pct[1]), fmt.Sprint(ns)}
+		for j := 0; j < ns; j++ {
+			s, r := randTimeAround(c, start, end), randTimeAround(c, start, end)
+			if c.R.Intn(2) == 0 {
+				r = 0
+			}
+			amt := randAmount(c)
+			var id types.Hash
+			id[0], id[1] = byte(t), byte(j)
+			addr := idxAddress(byte(20+t), j)
+			e := &definition.LiquidityStakeEntry{Amount: amt, TokenStandard: zts, WeightedAmount: amt, StartTime: s, RevokeTime: r,
+				StakeAddress: addr, Id: id}
+			common.DealWithErr(e.Save(ctx.storage))
+			refs = append(refs, stakeRef{addr})
+			a = append(a, fmt.Sprint(s), fmt.Sprint(r), amt.String())
+			nStakes++
+		}
+		args = append(args, strings.Join(a, " "))
+	}
+	enc, err := definition.EncodeLiquidityInfo(info)
+	common.DealWithErr(err)
+	common.DealWithErr(enc.Save(ctx.storage))
+	credZ, credQ := big.NewInt(0), big.NewInt(0)
+	mintZ, mintQ := big.NewInt(0), big.NewInt(0)
+	res := guard(func() string {
+		blocks, err := implementation.ComputeLiquidityStakeRewardsForEpochVerif(ctx, epoch)
+		if err != nil {
+			if err == constants.ErrInvalidRewards {
+				return "err"
+			}
+			return "other-err"
+		}
+		for _, b := range blocks {
+			if b.ToAddress != types.TokenContract {
+				return "bad-block"
+			}
+			param := new(definition.MintParam)
+			if err := definition.ABIToken.UnpackMethod(param, definition.MintMethodName, b.Data); err != nil {
+				continue // burn of the additional reward
+			}
+			if param.ReceiveAddress != types.LiquidityContract {
+				return "bad-mint-target"
+			}
+			switch param.TokenStandard {
+			case types.ZnnTokenStandard:
+				mintZ.Add(mintZ, param.Amount)
+			case types.QsrTokenStandard:
+				mintQ.Add(mintQ, param.Amount)
+			default:
+				return "bad-mint-token"
+			}
+		}
+		ss := []string{}
+		for _, r := range refs {
+			a := r.addr
+			dep, err := definition.GetRewardDeposit(ctx.storage, &a)
+			common.DealWithErr(err)
+			ss = append(ss, dep.Znn.String(), dep.Qsr.String())
+			credZ.Add(credZ, dep.Znn)
+			credQ.Add(credQ, dep.Qsr)
+		}
+		ss = append(ss, ";", mintZ.String(), mintQ.String())
+		return strings.Join(ss, " ")
+	})
+	c.Emit("liq-epoch %d %d %d %s %s %d %s | %s", epoch, start, end, addZ, addQ, nTok, strings.Join(args, " "), res)
+	c.Hit("liq-epoch")
+	desc := fmt.Sprintf("epoch %d window [%d,%d) additional %s/%s tokens %s", epoch, start, end, addZ, addQ, strings.Join(args, " | "))
+	switch res {
+	case "panic", "other-err", "bad-block", "bad-mint-target", "bad-mint-token":
+		c.Fail("computeLiquidityStakeRewardsForEpoch: %s on %s", res, desc)
+		return
+	case "err":
+		c.Hit("liq-epoch-invalid-rewards")
+		if valid {
+			c.Fail("computeLiquidityStakeRewardsForEpoch: ErrInvalidRewards although the token percentages sum to at most 100%%: %s", desc)
+		}
+		return
+	}
+	// model-free monitor: credited to stakers + minted to the contract = epoch emission + additional reward, per coin —
+	// never more
+	tz, tq := constants.LiquidityRewardForEpoch(epoch)
+	tz.Add(tz, addZ)
+	tq.Add(tq, addQ)
+	if new(big.Int).Add(credZ, mintZ).Cmp(tz) > 0 || new(big.Int).Add(credQ, mintQ).Cmp(tq) > 0 {
+		c.Fail("liquidity rewards exceed the epoch amount: credited %s/%s + minted %s/%s, epoch amount incl. additional reward %s/%s (%s)",
+			credZ, credQ, mintZ, mintQ, tz, tq, desc)
+	}
+	if credZ.Sign() > 0 {
+		c.Hit("liq-epoch-paid")
 	}
 }
 
